@@ -286,6 +286,7 @@ RdFrame(b) ==
    IF Len(b) < 8 THEN Res("I", 0, "frame-header-incomplete", NoVal)
    ELSE LET L == V(b, 0)  e == V(b, 4) IN
    IF e < ENC0 \/ e > ENC0 + 9 THEN Res("R", 4, "encoding-id", NoVal)
+   ELSE IF b[4] = 255 /\ b[3] = 255 /\ b[2] = 255 /\ b[1] >= 248 THEN Res("R", 0, "header-plus-body-overflows-32-bits", NoVal)
    ELSE IF L > Len(b) - 8 THEN Res("I", 0, "frame-body-incomplete", NoVal)
    ELSE IF e # ENC0 THEN Res("E", 4, "body-is-not-a-zlib-stream", NoVal)
    ELSE LET r == RdTop(Bytes(b, 8, L)) IN
@@ -377,7 +378,7 @@ BigMenu == <<
    Msg(43, <<Fld(Nm(1), "message", <<Msg(1, <<Fld(Nm(1), "raw", <<Big(2040)>>)>>), S1>>)>>) >>
 
 Menu == CASE MENU = "tiny"     -> <<E0, S2, N2, ZeroMenu[2]>>
-          [] MENU = "quick"    -> FixedMenu(<<1, 2, 3>>) \o VarMenu \o MsgMenu \o MixMenu \o ZeroMenu
+          [] MENU = "quick"    -> FixedMenu(<<1, 2, 3>>) \o VarMenu \o MsgMenu \o MixMenu \o ZeroMenu \o <<BigMenu[3]>>
           [] MENU = "thorough" -> FixedMenu(<<1, 2, 3>>) \o VarMenu \o MsgMenu \o MixMenu \o ZeroMenu \o PairMenu \o BigMenu
 Canonical(m) == \A i \in 1..Len(m.fields) : m.fields[i].items # <<>>      \* only ZeroMenu is not
 NBase == Len(Menu)
@@ -543,6 +544,9 @@ HugeNeverAccepted == (mu.k = "word" /\ IsMsgLike /\ mu.wk \in LenKinds \cup {"co
 SpliceDisagrees == (mu.k = "splice" /\ IsMsgLike /\ mu.canon) =>
    /\ mu.v = "A" => (mu.sp = "ins" /\ mu.d = 0 /\ (mu.wk = "paylen" \/ mu.enc = "tmpl"))     \* a node whose only parent is the buffer (the data of a top-level field; a top-level item of the payload-only encoding): growing it consistently is a valid encoding
    /\ (mu.sp = "ins" /\ mu.wk \in {"itemlen", "msglen"} /\ mu.enc = "msg" /\ mu.e = mu.n) => mu.v \in {"R", "RB"}    \* the last child now ends one byte after its parent
+
+(* a flattened String ends with a NUL: a name length that stops one byte early is refused for exactly that reason *)
+NameNulChecked == (mu.k = "word" /\ mu.enc = "msg" /\ mu.canon /\ mu.wk = "namelen" /\ mu.n >= 2 /\ mu.w = W(mu.n - 1)) => (mu.v = "R" /\ mu.why = "name-without-nul")
 
 (* documented constants *)
 VersionChecked == (mu.k = "word" /\ mu.wk = "ver" /\ ~Unchanged) => mu.v = "R"
